@@ -1,0 +1,20 @@
+//go:build verif
+
+// Contracts for package logging, read by the verification-condition generator in /verif (govc).
+// Comment-only.
+//
+// lvlsets(1) counts the Set calls on the package's level variable, lvlval(1) is the level set last.
+
+package logging
+
+// Rebuilding the log writers (a changed file, size, backup count, compression or stdout switch)
+// leaves the level alone: the level follows its own setting only.
+//@ props C19
+//@ func updateLogger
+//@   requires cfg != nil && aset(cfg.Logging.ToStdout.value) && aset(cfg.Logging.File.value) && aset(cfg.Logging.MaxSize.value) && aset(cfg.Logging.MaxBackups.value) && aset(cfg.Logging.Compress.value)
+//@   ensures [C19] lvlsets(1) == old(lvlsets(1))
+
+// The level listener sets the level it is told.
+//@ props C19
+//@ func Init$1
+//@   ensures [C19] lvlsets(1) == old(lvlsets(1)) + 1 && lvlval(1) == newLevel
